@@ -19,7 +19,7 @@ import tempfile
 
 sys.path.insert(0, os.path.dirname(os.path.dirname(os.path.abspath(__file__))))
 
-from sim import core, evidence, gen, inject, isolate, ops, report, runner, simrandom  # noqa: E402
+from sim import core, evidence, gen, isolate, ops, report, runner, simrandom  # noqa: E402
 
 PROP = "C13"
 SCRIPT = os.path.join("checks", "c13.py")
@@ -239,12 +239,19 @@ def check_draw(case: dict, d: dict, info: dict) -> dict | None:
         bb = obj
     if sp["has_positions"]:
         for name, value in case["pinned"].items():
-            got = getattr(bb, name)
+            try:
+                got = getattr(bb, name)
+            except Exception as e:  # noqa: BLE001
+                return v("invalid-object", f"reading {name} of the returned object raised {type(e).__name__}: {e}", reason="accessor")
             if got != value:
                 return v("pinned-not-honoured", f"pinned {name}={value!r} came back as {got!r}",
                          component=name, use_registry=case["use_registry"], country=cc)
     if case["use_registry"] and cc in info["all_have_code"] and not (set(case["pinned"]) & set(sp["lookup"])):
-        if bb.bank is None:
+        try:
+            bank = bb.bank
+        except Exception as e:  # noqa: BLE001
+            return v("invalid-object", f"reading .bank of the returned object raised {type(e).__name__}: {e}", reason="accessor")
+        if bank is None:
             return v("unlisted-bank", f"registry-based draw {text} does not belong to a listed bank", country=cc)
     return None
 
@@ -256,19 +263,12 @@ def run_cases_child(cases: list, info: dict, history_seed: int | None) -> list:
     if history_seed is not None:
         rng = random.Random(history_seed)
         weights = gen.swarm_weights(rng)
-        inj = inject.AbortInjector(len(runner.PKG_DIR))
+        # ordinary calls only (failing ones included).  Calls interrupted half-way were tried here for a while and
+        # removed again: C13 says "identical on every call, in every process", it says nothing about calls after an
+        # interrupted call - that is C15's statement ("including calls that failed") and C15's fault model.
         for _ in range(5 + rng.randrange(25)):
             op, _ = gen.gen_op(rng, runner.POOL, weights)
-            if rng.random() < 0.3:  # a call unwound half-way (SimAbort / MemoryError at a random library line)
-                inj.arm(1 + rng.randrange(60), rng.choice(["SimAbort", "MemoryError"]))
-                try:
-                    ops.execute(op)
-                except inject.SimAbort:
-                    pass
-                finally:
-                    inj.disarm()
-            else:
-                ops.execute(op)
+            ops.execute(op)
     for case in cases:
         d1 = draw(case)
         touched = False
@@ -606,7 +606,7 @@ def main() -> int:
         "evaluations": agg["draws"] + fresh_done,
         "distinct_nontrivial": len(classes),
         "rule": "one evaluation = one call of IBAN.random/BBAN.random under a simulator-owned generator (each generated "
-                "case is drawn twice in a pristine fork, twice more after a random call history (30 % of whose calls are aborted half-way), and a sample again in "
+                "case is drawn twice in a pristine fork, twice more after a random call history, and a sample again in "
                 "fresh interpreters under other PYTHONHASHSEED values); distinct non-trivial = distinct (country, api, "
                 "registry mode, set of pinned components, PRNG bias, outcome class) tuples in which the generator was consulted",
         "samples": samples[:4] or [{"note": "no sample"}],
